@@ -251,7 +251,12 @@ class ExprMixin:
         return Const('<fstring>')
 
     def e_Lambda(self, node, st):
-        return Const(('lambda', node.lineno))
+        from .model import FuncInfo
+        fn = ast.FunctionDef(name='<lambda>', args=node.args, body=[ast.Return(value=node.body, lineno=node.lineno,
+                                                                              col_offset=node.col_offset)],
+                             decorator_list=[], lineno=node.lineno, col_offset=node.col_offset)
+        fi = FuncInfo(self.cur.module, f'{self.cur.qualname}.<lambda>@{node.lineno}', fn, cls=None)
+        return Const(('closure', fi))
 
     def e_Starred(self, node, st):
         return app('starred', P(self.eval(node.value, st)))
@@ -261,6 +266,21 @@ class ExprMixin:
         return Slice(f(node.lower), f(node.upper), f(node.step))
 
     def _comp(self, node, st, elt_nodes, kind):
+        # a single generator over a sequence whose items are all known is unrolled
+        if len(node.generators) == 1 and not node.generators[0].ifs and kind == 'listcomp':
+            gen = node.generators[0]
+            it = self.eval(gen.iter, st)
+            if isinstance(it, Const) and isinstance(it.value, str) and len(it.value) <= 8:
+                it = Tup([Const(ch) for ch in it.value])
+            if isinstance(it, Tup) and len(it) <= 8:
+                out = []
+                saved = dict(st.env)
+                for item in it.items:
+                    self.assign_target_expr(gen.target, item, st, gen)
+                    out.append(self.eval(elt_nodes[0], st))
+                st.env.clear()
+                st.env.update(saved)
+                return Tup(out, 'list')
         sub = st.fork()
         sub.events = st.events      # share the log
         iters = []
@@ -276,6 +296,9 @@ class ExprMixin:
         finally:
             self.loop_depth -= 1
         return app(kind, *elts, *iters)
+
+    def assign_target_expr(self, target, value, st, node):
+        self.assign(target, value, st, node)
 
     def e_ListComp(self, node, st):
         return self._comp(node, st, [node.elt], 'listcomp')
@@ -413,6 +436,17 @@ class ExprMixin:
                     return Tup(base.items[slice(lo, hi, stp)], base.kind)
         if isinstance(base, Poly) and base.const_value() is not None:
             return base     # a 0-d value can only be indexed by () / Ellipsis, which returns it
+        if isinstance(base, Poly) and isinstance(key, Poly):
+            ba = base.single_atom()
+            if ba is not None and ba[0] == 'app' and ba[1] == 'arange' and all(isinstance(x, Poly) for x in ba[2]):
+                # arange(n)[k] = k ; arange(a, b)[k] = a + k ; arange(a, b, c)[k] = a + k*c   (k >= 0)
+                ar = ba[2]
+                if len(ar) == 1:
+                    return key
+                if len(ar) == 2:
+                    return ar[0] + key
+                if len(ar) == 3:
+                    return ar[0] + key * ar[2]
         if isinstance(base, Poly):
             a = base.single_atom()
             if a is not None and a[0] == 'app' and a[1] == 'dict' and isinstance(key, (Const, Poly)):
